@@ -447,4 +447,80 @@ theorem sim_create (h : TxRel tx d) (sl : Slot) (p : Path) : SimOK tx d (.create
         simp only [has_false_of_not_mem hm, Bool.not_false, if_true]
         exact ⟨h, Agree.same _ rfl⟩
 
+/-- postcondition of the recursive bucket deletion `deleteBucket` (proved in MW.Lemmas.KvDelete) -/
+def DeleteSpec : Prop :=
+  ∀ (tx : Tx) (d : DB) (sub : Bucket) (p : Path), tx.Inv → tx.readOnly = false → Rel tx.commit d →
+    sub.IsAt p → p ∈ d.buckets → p.length ≥ 2 →
+    ∃ bt, deleteBucketAux tx.db (deleteFuel tx.db tx.b) sub tx.b = .ok bt ∧ bt.Inv ∧
+      (∀ k0, UnderKey p k0 → (eff tx.db bt).get k0 = none) ∧
+      (∀ k0, ¬ UnderKey p k0 → (eff tx.db bt).get k0 = tx.commit.get k0)
+
+theorem sim_delb (hds : DeleteSpec) (h : TxRel tx d) (sl : Slot) (p : Path) : SimOK tx d (.delb sl p) := by
+  unfold SimOK
+  simp only [dataOp, Spec.KV.dataOp, DB.delb]
+  cases hl : p.getLast? with
+  | none =>
+    have : p = [] := by
+      cases p with
+      | nil => rfl
+      | cons a r => simp [List.getLast?_cons] at hl
+    subst this
+    simp only [List.length_nil, BEq.rfl, if_true]
+    exact ⟨h, Agree.same _ rfl⟩
+  | some name =>
+    simp only
+    have hpsplit := path_split_last hl
+    have hne0 : (p.length == 0) = false := by
+      rw [hpsplit]; simp
+    simp only [hne0, Bool.false_eq_true, if_false]
+    by_cases h1 : (p.length == 1) = true
+    · simp only [h1, if_true, Tx.deleteTopLevelBucket]
+      exact ⟨h, Agree.same _ rfl⟩
+    · simp only [h1, Bool.false_eq_true, if_false]
+      rcases h.nav p.dropLast with ⟨b, hb, hba, hm⟩ | ⟨hb, hm⟩
+      · rw [hb]
+        simp only [has_true_of_mem hm, Bool.not_true, Bool.false_eq_true, if_false, Bucket.deleteBucket]
+        by_cases hr : tx.readOnly = true
+        · simp only [hr, if_true]; exact ⟨h, Agree.same _ rfl⟩
+        · have hw : tx.readOnly = false := by simpa using hr
+          simp only [hw, Bool.false_eq_true, if_false]
+          rw [Bucket.bucket_ryw h.inv, Tx.roView_eq_ro]
+          rcases h.rel.bucket hba name with ⟨sub, hs, hsa, hsm⟩ | ⟨hs, hsm⟩
+          · rw [hs]
+            simp only
+            have hpm : p ∈ d.buckets := by rw [hpsplit]; exact hsm
+            have hsa' : sub.IsAt p := by rw [hpsplit]; exact hsa
+            have hlen : p.length ≥ 2 := by
+              have h1' : p.length ≠ 1 := by simpa using h1
+              have h0' : p.length ≠ 0 := by simpa using hne0
+              omega
+            obtain ⟨bt, hbt, hinv, hgone, hkeep⟩ := hds tx d sub p h.inv hw h.rel hsa' hpm hlen
+            rw [hbt]
+            simp only [has_true_of_mem hpm, Bool.not_true, Bool.false_eq_true, if_false]
+            refine ⟨⟨⟨h.inv.dbSorted, hinv⟩, ?_⟩, Agree.same _ rfl⟩
+            show Rel (eff tx.db bt) _
+            exact h.rel.delb hpm hlen (eff_sorted h.inv.dbSorted _) hgone hkeep
+          · rw [hs]
+            have hpm : p ∉ d.buckets := by rw [hpsplit]; exact hsm
+            simp only [has_false_of_not_mem hpm, Bool.not_false, if_true]
+            exact ⟨h, Agree.same _ rfl⟩
+      · rw [hb]
+        simp only [has_false_of_not_mem hm, Bool.not_false, if_true]
+        exact ⟨h, Agree.same _ rfl⟩
+
+/-- every data operation simulates its specification -/
+theorem dataOp_sim (hds : DeleteSpec) (h : TxRel tx d) (op : Op) (hop : slotOf op ≠ none) : SimOK tx d op := by
+  cases op with
+  | create sl p => exact sim_create h sl p
+  | delb sl p => exact sim_delb hds h sl p
+  | has sl p => exact sim_has h sl p
+  | put sl p k v => exact sim_put h sl p k v
+  | get sl p k => exact sim_get h sl p k
+  | del sl p k => exact sim_del h sl p k
+  | clear sl p => exact sim_clear h sl p
+  | pfx sl p k => exact sim_pfx h sl p k
+  | names sl p => exact sim_names h sl p
+  | iter sl p a b sc => exact sim_iter h sl p a b sc
+  | beginW | beginR | commit | rollback | endR | reopen | probe | raw => exact absurd rfl hop
+
 end MW.Model.KV
